@@ -131,6 +131,51 @@ def rule_escape(report, prog, res, tier):
     report.floor('C13-R1', n_roots, 18)
 
 
+def rule_status_value(report, prog):
+    """R2 (classification input): a PN53x status byte carries flag bits (NAD / MI) above the six bit error code.  Where a command
+    wrapper tests the masked code it also raises with the masked code -- the translation to TimeoutError / BrokenLinkError compares
+    the raised value with plain error codes, a value with a flag bit set would be classified as something else."""
+    n = 0
+    for q, f in sorted(prog.functions.items()):
+        if not (q.startswith('nfc.clf.') and '.Chipset.' in q):
+            continue
+        for i in walk_no_nested(f.node):
+            if not isinstance(i, ast.If):
+                continue
+            masks = [norm(b) for b in ast.walk(i.test) if isinstance(b, ast.BinOp) and isinstance(b.op, ast.BitAnd) and
+                     norm(b.left) == 'data[0]' and isinstance(try_const(b.right), int)]
+            errs = [c for st in i.body for c in ast.walk(st) if isinstance(c, ast.Call) and norm(c.func) == 'self.chipset_error' and c.args]
+            if not masks or not errs:
+                continue
+            for c in errs:
+                n += 1
+                report.check(any(m in norm(c.args[0]) for m in masks), 'C13-R2', key(q, 'the error is raised with the masked status code that was tested'), f.loc(c),
+                             '%s tests `%s` but raises with `%s`: a status byte with a flag bit set (e.g. 41h = timeout with MI) is raised as error code '
+                             '41h and classified as a transmission error instead of a timeout' % (q, masks[0], norm(c.args[0])))
+    report.floor('C13-R2 masked status', n, 2)
+
+
+def rule_udp_field_off(report, prog):
+    """R2 (udp driver): the peer announces that its field is gone with an RFOFF datagram: whenever _recv_data sees one it raises
+    BrokenLinkError -- no branch between the RFOFF test and the raise can go back to waiting."""
+    from ..cfg import cfg_of
+    f = prog.func('nfc.clf.udp.Device._recv_data')
+    cfg = cfg_of(f)
+    tn = [t for e, t in cfg.test_nodes.items() if 'RFOFF' in norm(e) and 'startswith' in norm(e)]
+    raises = [n_ for n_ in cfg.nodes if isinstance(n_.ast, ast.Raise) and 'BrokenLinkError' in norm(n_.ast)]
+    okk = len(tn) == 1 and bool(raises)
+    if okk:
+        for nxt, lab in tn[0].succ:
+            if lab != 'true':
+                continue
+            reach = cfg.reachable(nxt, avoid_nodes=raises) if nxt not in raises else set()
+            heads = [t for e, t in cfg.test_nodes.items() if isinstance(t.owner, ast.While)]
+            if cfg.exit in reach or any(h in reach for h in heads):
+                okk = False
+    report.check(okk, 'C13-R2', key(f.qname, 'an RFOFF datagram always ends in BrokenLinkError'), f.loc(),
+                 'udp _recv_data can see an RFOFF datagram and carry on: the loss of the peer\'s field is reported as TimeoutError (or not at all)')
+
+
 def rule_mapping(report, prog):
     # rcs380: compared strings are table keys
     cls = prog.cls('nfc.clf.rcs380.CommunicationError')
@@ -240,6 +285,8 @@ def run(report, prog, tier):
     res = Resolver(prog)
     rule_escape(report, prog, res, tier)
     rule_mapping(report, prog)
+    rule_status_value(report, prog)
+    rule_udp_field_off(report, prog)
     rule_frontend(report, prog)
     report.trusted += ['third-party transports: pyserial / libusb1 failures are converted to IOError inside nfc.clf.transport (explicit raises analysed)',
                        'catalogue of library raises: binascii.unhexlify -> binascii.Error, bytes.decode("ascii") -> UnicodeDecodeError']
@@ -259,6 +306,16 @@ triage.add('C13', 'C13-R1',
 X = 'nfc.clf.pn53x'
 R = 'nfc.clf.rcs380'
 MUTANTS = [
+    ('pn53x-unmasked-status-raised', 'nfc.clf.pn53x', """        data = self.command(0x86, b'', timeout)
+        if data is None or data[0] & 0x3f != 0:
+            self.chipset_error(data[0] & 0x3f if data else None)""", """        data = self.command(0x86, b'', timeout)
+        if data is None or data[0] & 0x3f != 0:
+            self.chipset_error(data)""", 'C13-R2'),
+    ('udp-rfoff-filtered', 'nfc.clf.udp', """                if data.startswith(b"RFOFF"):
+                    raise nfc.clf.BrokenLinkError("RFOFF")""", """                if data.startswith(b"RFOFF"):
+                    if addr != self.addr:
+                        continue
+                    raise nfc.clf.BrokenLinkError("RFOFF")""", 'C13-R2'),
     ('rcs380-timeout-tested-before-rf-off', 'nfc.clf.rcs380', """            if error == "RF_OFF_ERROR":
                 raise nfc.clf.BrokenLinkError(str(error))
             if error == "RECEIVE_TIMEOUT_ERROR":
